@@ -24,6 +24,7 @@ GATED = {
     "luaexec.py": {"add_empty_sandbox_lua_module"},
 }
 STALL_S = 0.3
+HOLD_S = 7.0      # > SQLite's default 5 s busy timeout
 OVERALL_S = 90.0
 
 TEMPLATES = {"ta": "A[{{{1|}}}]", "tb": "{{ta|{{{1|b}}}}}/{{#invoke:echo|f|{{{1|}}}}}"}
@@ -69,18 +70,24 @@ def rows(db):
         con.close()
 
 
-def work(db, order):
-    """What every worker does; returns per-page results."""
+def work(db, order, pause=None):
+    """What every worker does; returns per-page results.  pause() is a
+    harness-level gate between pages (the worker is outside package code
+    there, as a pool worker waiting for its next page is)."""
     from wikitextprocessor import Wtp
 
     ctx = Wtp(db_path=db, quiet=True, quiet_output=True)
     out = {}
     for i in order:
+        if pause:
+            pause()
         title, text = PAGES[i]
         ctx.start_page(title)
         out[title] = ctx.expand(text)
         root = ctx.parse(text, pre_expand=True)
         out[title + "#n"] = len(root.children)
+    if pause:
+        pause()
     out["exists"] = ctx.page_exists("Template:ta", 10)
     out["body"] = ctx.get_page_body("Template:tb", 10)
     out["p-one"] = ctx.get_page_body("P one", 0)
@@ -140,9 +147,14 @@ def spawn(idx, db, order, gated, start_r=None, offset_ms=0):
             t_start = time.time()
             g = Gate(ev_w, gr_r)
             try:
+                def pause():
+                    os.write(ev_w, b"P")
+                    os.read(gr_r, 1)
+
                 if gated:
                     sys.settrace(g.glob)
-                res = ("ok", work(db, order), g.count, t_start, time.time())
+                res = ("ok", work(db, order, pause if gated else None),
+                       g.count, t_start, time.time())
             except BaseException as e:
                 import traceback
 
@@ -171,7 +183,13 @@ def wait_event(w, timeout):
     b = os.read(w["ev"], 1)
     if b == b"G":
         w["state"] = "gate"
+        w["safe"] = False
         w["gates"] += 1
+    elif b == b"P":
+        # between pages: outside package code, may be held arbitrarily long
+        w["state"] = "gate"
+        w["safe"] = True
+        w["pgates"] = w.get("pgates", 0) + 1
     elif b == b"D" or b == b"":
         w["state"] = "done"
     return w["state"]
@@ -211,11 +229,20 @@ def run_schedule(db, schedule, n, orders):
     for w in ws:
         wait_event(w, 10.0)
 
+    def others_parked_safely(i):
+        """True when every other live worker waits at a between-pages gate:
+        holding them there is a legitimate schedule (an idle pool worker), so
+        the harness may wait for worker i as long as SQLite's own busy
+        timeout without manufacturing a lock error."""
+        return all(o["state"] == "done" or (o["state"] == "gate"
+                                            and o.get("safe"))
+                   for j, o in enumerate(ws) if j != i)
+
     def step(i):
         nonlocal switches, last
         w = ws[i]
         if w["state"] == "running":
-            wait_event(w, 0)
+            wait_event(w, HOLD_S if others_parked_safely(i) else 0)
         if w["state"] != "gate":
             return False
         if last is not None and last != i:
@@ -223,7 +250,8 @@ def run_schedule(db, schedule, n, orders):
         last = i
         w["state"] = "running"
         os.write(w["grant"], b"g")
-        wait_event(w, STALL_S)
+        if wait_event(w, STALL_S) is None and others_parked_safely(i):
+            wait_event(w, HOLD_S)
         return True
 
     for i in schedule:
@@ -353,6 +381,17 @@ def one_case(args):
         shutil.rmtree(d, ignore_errors=True)
 
 
+def hold_schedules(total_gates):
+    """Worker 0 is parked between pages (context open, after k pages) while
+    worker 1 does everything, and the mirror image."""
+    out = []
+    for k in (1, 2, 4):
+        head = total_gates + k + 2
+        out.append([0] * head + [1] * (total_gates + 40))
+        out.append([1] * head + [0] * (total_gates + 40))
+    return out
+
+
 def preemption_schedules(total_gates, n=2):
     """Every single preemption point: worker 0 runs k gates, worker 1 runs to
     the end, worker 0 finishes; and the mirror image."""
@@ -386,7 +425,7 @@ def run(run):
         sel = pre if not quick else pre[::max(1, len(pre) // 10)]
         if v[0]:
             sel = sel[:: max(1, len(sel) // 4)]   # known finding: few
-        for s in sel:
+        for s in sel + (hold_schedules(total) if not v[0] else []):
             jobs.append(("A", v, 2, s, rnd.randint(0, 10 ** 6)))
         nrand = (6 if quick else 150)
         for _ in range(nrand if not v[0] else 2):
@@ -431,7 +470,10 @@ def run(run):
         f"every single preemption point of the {total}-gate start-up in both "
         "orders (thorough; quick: every 10th) and seeded random schedules; a "
         "worker that does not reach its next gate within 0.3 s is treated as "
-        "blocked in SQLite and another worker is scheduled. Mode B: 2-16 "
+        "blocked in SQLite and another worker is scheduled; workers also stop "
+        "at harness-level gates between pages, where a schedule may hold them "
+        "(context open) for as long as SQLite's busy timeout while another "
+        "worker starts up. Mode B: 2-16 "
         "free-running workers released by a barrier with seeded 0-20 ms "
         "offsets. Oracle: no worker raises, every worker's per-page "
         "expansions, parse sizes and lookups equal a single process's, and "
